@@ -10,16 +10,22 @@ import common
 import corechecks
 
 THEOREMS = ['C02_bookkeeping', 'C02_lengths']
-MODULE = 'NautilusVerif.Properties.C02'
+EST_THEOREMS = ['C02_shellVolume', 'C02_shellVolume_le', 'C02_evidence', 'C02_weights', 'C02_kish', 'C02_shellTerm']
+TIE_THEOREMS = ['C02_tie_formulas', 'C02_tie_structure', 'C02_tie_view']
+MODULE = [('NautilusVerif.Properties.C02', THEOREMS), ('NautilusVerif.Properties.C02Est', EST_THEOREMS),
+          ('NautilusVerif.Properties.C02EstTie', TIE_THEOREMS)]
 FILES = ['nautilus/sampler.py']
 INVARIANTS = ['aligned', 'counts', 'shape']
 
 
 def run(chk):
     chk.extra['source_digest'] = common.source_digest(FILES)
-    chk.prove(MODULE, THEOREMS)
+    import gen_c02
+    text2, notes2 = gen_c02.generate(common.REPO)
+    chk.extra['translator'] = notes2
+    chk.prove(MODULE, None, {'NautilusVerif/Generated/C02.lean': text2})
     if chk.tier == 'thorough':
-        chk.leanchecker([MODULE])
+        chk.leanchecker([m for m, _ in MODULE])
     results = corechecks.run_all(chk.tier, chk.seed)
     corechecks.report(chk, 'C02', results, INVARIANTS)
     chk.assumptions += ['estimator identities are over exact reals; float results are compared with relative tolerance 1e-8', 'all-zero-likelihood states (log_z = -inf) are excluded']
